@@ -361,7 +361,22 @@ func (r *run) forge(t *Term) (out []byte, flat *Flat, why string, post func(id i
 		}
 		return nil, nil, "no InitHello with that ephemeral", nil
 	case "RH":
-		b, c, err := r.adv.RespHello(r.msgs[refReal-1].bytes, keyBytes(t.Key), t.Sig == "M", r.garbage(64))
+		sigBytes := r.garbage(64)
+		if len(t.Sig) == 2 && t.Sig[0] == 't' {
+			// key K's signature over the TIMESTAMP of one of its InitHellos (sent in the clear), used as channel-binding signature
+			sigBytes = nil
+			for _, m := range r.msgs {
+				if m.flat.T == "IH" && m.flat.By != "M" && m.flat.Key == t.Sig[1:] {
+					if _, _, _, s2, err := attacker.ParseInitHello(m.bytes); err == nil {
+						sigBytes = s2
+					}
+				}
+			}
+			if sigBytes == nil {
+				return nil, nil, "no honest InitHello to take the timestamp signature from", nil
+			}
+		}
+		b, c, err := r.adv.RespHello(r.msgs[refReal-1].bytes, keyBytes(t.Key), t.Sig == "M", sigBytes)
 		if err != nil {
 			return nil, nil, "cannot answer that InitHello: " + err.Error(), nil
 		}
